@@ -245,4 +245,4 @@ RULE = RULE + " || " + OBS_RULE
 
 
 def translator_tie():
-    return vlib.translator_tie(["view"])
+    return vlib.translator_tie(["view", "elem"])
